@@ -273,7 +273,8 @@ def register(gen):
             return Case(enc.encode(ds, ch), "osm" if self.fmt == "xml" else "osm.opl", model.dump(multi, opts, boxes, ds["objects"]), nt=c["p"] != "0")
 
         def rows(self, tier):
-            for lv in (["few"] if tier == "quick" else ["few", "std", "all"]):
+            # (XML costs about three times as much per case as OPL: its 9! orders are left out)
+            for lv in (["few"] if tier == "quick" else ["few", "std", "all"] if self.fmt == "opl" else ["few", "std"]):
                 f = 1
                 for k in range(2, len(self.names[lv]) + 1):
                     f *= k
